@@ -185,3 +185,9 @@ func vhC15Permutation(n, maxSeg int) {
 func vh_C15_sound_complete_Q() { vhC15SoundComplete(3, 2, false, false) }
 func vh_C15_slashes_Q()        { vhC15SoundComplete(2, 2, true, true) }
 func vh_C15_permutation_Q()    { vhC15Permutation(3, 1) }
+
+// C14: conflict detection never panics
+func vh_C14_conflicts_Q() {
+	symxAssertionsOff()
+	vhC15SoundComplete(2, 2, true, true)
+}
